@@ -401,6 +401,11 @@ func fileState(s crashSpec, dir string) (string, error) {
 	return string(raw), nil
 }
 
+// brief renders file content for a violation message: length, hash and a printable prefix.
+func brief(s string) string {
+	return fmt.Sprintf("[%d bytes sha256:%s %q]", len(s), shaHex([]byte(s))[:12], truncate(s, 60))
+}
+
 func strayTemps(dir string) []string {
 	var out []string
 	_ = filepath.WalkDir(filepath.Join(dir, "w"), func(p string, d fs.DirEntry, err error) error {
@@ -457,13 +462,13 @@ func evalPoint(s crashSpec, specPath, tmpl, work string, pt crashPoint, idx int,
 	got, perr := fileState(s, dir)
 	switch {
 	case perr != nil:
-		bad(kCrMixed, fmt.Sprintf("%v (content %q)", perr, truncate(got, 200)))
+		bad(kCrMixed, fmt.Sprintf("%v (content %s)", perr, brief(got)))
 	case got == oldState:
 		pf.State = "old"
 	case got == newState:
 		pf.State = "new"
 	default:
-		bad(kCrMixed, fmt.Sprintf("content is neither old nor new: %q (old %q, new %q)", truncate(got, 300), truncate(oldState, 120), truncate(newState, 120)))
+		bad(kCrMixed, fmt.Sprintf("content is neither old nor new: %s (old %s, new %s)", brief(got), brief(oldState), brief(newState)))
 	}
 	if pf.Outcome == "returned-ok" && pf.State == "old" && oldState != newState {
 		bad(kCrOKNotNew, "the operation reported success but the file still has the old content")
@@ -492,7 +497,7 @@ func evalPoint(s crashSpec, specPath, tmpl, work string, pt crashPoint, idx int,
 	default:
 		after, aerr := fileState(s, dir)
 		if aerr != nil || after != newState {
-			bad(kCrRerunNew, fmt.Sprintf("after the rerun: %q (err %v), expected new %q", truncate(after, 300), aerr, truncate(newState, 200)))
+			bad(kCrRerunNew, fmt.Sprintf("after the rerun: %s (err %v), expected new %s", brief(after), aerr, brief(newState)))
 		}
 		if s.Op == "install" {
 			var pf2 pointFacts
